@@ -316,7 +316,7 @@ package pipe
 //@   props C06 C12
 //@   ensures result != nil
 //@   loop 0 invariant own(out) && !closed(out) && sent(out) == [] && !closerSpawned && added == len(in) && spawned == idx && shares(out) == idx && idx + len(rest) == len(in)
-//@   fn 0:
+//@   go 0:
 //@     props C06 C12
 //@     opt shares=out
 //@     opt inputs=c
@@ -326,7 +326,7 @@ package pipe
 //@     ensures [C12] forwards_its_input_in_order: !sawCancel ==> drained(c) && sent(out) == rcvd(c)
 //@     ensures delivered_is_a_prefix: isPrefix(sent(out), total(c))
 //@     ensures signals_completion_once: doneCalls == 1
-//@   go 0:
+//@   go 1:
 //@     props C06 C12
 //@     opt takes=out
 //@     opt closer=1
